@@ -736,7 +736,8 @@ class Grammar(Model):
         bfmt: str = ""
         for k in sorted(repr(k) for k in self.keywords):
             batch += [k]
-            bfmt = f"@@keyword :: {' '.join(batch)}"
+            # NOTE parenthesised: the bare list would swallow the name of a rule with [params]
+            bfmt = f"@@keyword :: ({' '.join(batch)})"
             if len(bfmt) >= PEP8_LLEN - 8:
                 keywordsets += [bfmt]
                 batch = []
